@@ -60,6 +60,8 @@ def index_hazards(evs):
 
 def check(ctx):
     a = ctx.a
+    from .c03 import framing_premise
+    framing_premise(ctx, 'K0', 'a CONNACK that is mis-framed settles the connect request wrongly, late or never')
     ty = types(a)
     n_acc = n_ack = n_loss = 0
     for cls in a.protos:
